@@ -61,6 +61,8 @@ func (w *World) harnessAPI(t *Thread, f *Frame, name string, args []Val) (Val, b
 		return not(w.recFn(args[0].(BytesV).r, "sErr", "Bool")), false
 	case "vpRecEmpty":
 		return w.recFn(args[0].(BytesV).r, "empty", "Bool"), false
+	case "vpNoteToken":
+		return nil, false
 	case "vpSameBytes":
 		return args[0].(BytesV).r == args[1].(BytesV).r, false
 	case "vpRecMapID": // (present-as-string, value) of the "id" member in the generic-map parse
